@@ -1,5 +1,6 @@
 """Correspondence and oracles for the simplification passes and pipelines (C03, C18)."""
 import itertools
+import json
 
 from . import coqterm as ct
 from . import evalcorr, gen, semoracle, wforacle
@@ -106,6 +107,24 @@ def unary_chain_circuit(rng, kind):
 LEAVES = [['RR', False], ['RR', True], ['MU'], ['MD'], ['ME']]
 
 
+def sibling_variant(rng, dump):
+    """same labels and wiring, other gate types (arity class kept): what a transformer object may have
+    seen in an earlier call"""
+    classes = [['NOT', 'IFF'], ['AND', 'OR', 'XOR', 'NAND', 'NOR', 'NXOR'],
+               ['GEQ', 'GT', 'LEQ', 'LT', 'LIFF', 'LNOT', 'RIFF', 'RNOT', 'AND', 'OR', 'XOR']]
+    gates = []
+    for k, t, ops in dump['gates']:
+        if t != 'INPUT' and rng.random() < 0.5:
+            for cl in classes:
+                if t in cl and (len(ops) == 2 or cl is not classes[2]):
+                    t = rng.choice(cl)
+                    break
+        gates.append((k, t, list(ops)))
+    d = dict(dump)
+    d['gates'] = gates
+    return d
+
+
 def make_case(rng, dump, n_pipelines=3):
     heavy = len(dump['inputs']) <= 5
     runs = []
@@ -177,6 +196,20 @@ def oracle_c03(case):
     msg = wforacle.wf_violation(out)
     if msg:
         return 'result not well formed: ' + msg
+    # a transformer object carries no state from one call to the next: the same objects applied first to
+    # a sibling circuit (same labels, other gate types) and then to this one give the result of fresh objects
+    if case.get('first') is not None and ts:
+        objs = [build(t) for t in ts]
+        try:
+            Transformer.apply_transformers(ct.build_circuit(case['first']), objs)
+        except Exception:  # noqa: BLE001
+            pass
+        try:
+            again = Transformer.apply_transformers(ct.build_circuit(dump), objs)
+            if ct.dump_circuit(again) != ct.dump_circuit(out):
+                return 'a transformer object that was used on another circuit before gives a different result than a fresh one'
+        except Exception as e:  # noqa: BLE001
+            return f'a transformer object that was used on another circuit before raises {type(e).__name__}: {e}'
     removes_inputs = any(t == ['RR', True] for t in flatten(ts))
     od = ct.dump_circuit(out)
     if removes_inputs:
